@@ -320,11 +320,52 @@ def eval_value(expr, env):
     return val
 
 
+def tls_setup(t):
+    """`rustls_config`: trust anchors = the peers' certificates, client authentication optional,
+    verifier installed. -> (dict, [why])"""
+    why = []
+    val = {"anchors_from_peers": True, "client_auth_optional": True, "verifier_installed": True, "recognised": False}
+    try:
+        m = re.search(r"async fn rustls_config\s*\(", t)
+        if not m:
+            raise Bad("fn rustls_config not found")
+        pe = paren_end(t, m.end() - 1)
+        params = re.sub(r"\s+", "", t[m.end():pe])
+        if params.rstrip(",") != "config:&ServerConfig,certs:Vec<PeerConfig>":
+            raise Bad("unexpected parameters of rustls_config: " + params[:80])
+        b0 = t.index("{", pe)
+        body = t[b0 + 1:paren_end(t, b0, "{", "}")]
+        flat = re.sub(r"\s+", "", body)
+        anchors = ("letmuttrusted_certs=RootCertStore::empty();" in flat
+                   and "forcertincerts.into_iter().filter_map(|peer|peer.certificate){trusted_certs.add(cert)?;}" in flat
+                   and len(re.findall(r"trusted_certs\.", flat)) == 2          # the one `.add` and the `.into()`
+                   and len(re.findall(r"RootCertStore", flat)) == 1)
+        vm = re.search(r"letclient_verifier=WebPkiClientVerifier::builder_with_provider\(trusted_certs\.into\(\),Arc::clone\(&CRYPTO_PROVIDER\),?\)((?:\.\w+\((?:\"[^\"]*\")?\))*);", flat)
+        if not vm:
+            raise Bad("client verifier is not WebPkiClientVerifier::builder_with_provider(trusted_certs.into(), ..)")
+        calls = re.findall(r"\.(\w+)\(", vm.group(1))
+        if [c for c in calls if c not in ("allow_unauthenticated", "build", "expect")]:
+            raise Bad("unknown option on the client verifier builder: " + vm.group(1)[:80])
+        optional = "allow_unauthenticated" in calls
+        installed = (len(re.findall(r"\.with_client_cert_verifier\(client_verifier\)", flat)) == 1
+                     and "with_no_client_auth" not in flat
+                     and len(re.findall(r"client_verifier", flat)) == 2
+                     and len(re.findall(r"ServerConfig::builder", flat)) == 1)
+        if len(re.findall(r"ClientCertVerifier|dangerous\(\)", flat)) > 0:
+            raise Bad("custom certificate verifier in rustls_config")
+        val = {"anchors_from_peers": anchors, "client_auth_optional": optional, "verifier_installed": installed, "recognised": True}
+    except (Bad, ValueError) as ex:
+        why.append(str(ex))
+    return val, why
+
+
 def start_on_arms(t):
-    """-> (arms for the four combos, [reasons why something was not recognised])"""
+    """-> (arms for the four combos, [reasons why something was not recognised], number of
+    `SetClientIdentityFromHeader` occurrences understood)"""
     why = []
     found = {}
     n_header_src = 0
+    n_header_seen = [0]
     try:
         m = re.search(r"pub async fn start_on\b", t)
         if not m:
@@ -337,7 +378,6 @@ def start_on_arms(t):
         if not mm:
             raise Bad("match (self.config.disable_https, listener) not found in start_on")
         env = {}
-        n_header_seen = [0]
 
         def bind(lets, env):
             for name, expr in lets:
@@ -384,6 +424,8 @@ def start_on_arms(t):
                     raise Bad("server argument of spawn_server is not an axum_server constructor: " + args[1][:60])
                 if server[1] == "rustls-unrecognising":
                     raise Bad("rustls server without ClientCertRecognizingAcceptor")
+                if server[1] == "tls" and not re.search(r"\brustls_config\(\s*&self\.config,\s*self\.network_config\.vec_peers\(\)\s*\)", ab):
+                    raise Bad("TLS arm does not build its rustls config with rustls_config(&self.config, self.network_config.vec_peers())")
                 if (server[2] in ("from_tcp", "from_tcp_rustls")) != key[1]:
                     raise Bad(f"arm uses axum_server::{server[2]} although listener is {'given' if key[1] else 'None'}")
                 if key in found:
@@ -405,7 +447,7 @@ def start_on_arms(t):
                 why.append(f"arm ({str(d).lower()}, {'Some(listener)' if l else 'None'}) not recognised")
             # fallback: what the property demands, flagged, so that the model stays executable
             arms.append({"disable_https": d, "listener": l, "header_layer": d, "tls_acceptor": not d, "recognised": False})
-    return arms, why
+    return arms, why, n_header_seen[0]
 
 
 def extract():
@@ -579,16 +621,31 @@ def extract():
     rel = "net/server/mod.rs"
     raw = read(rel)
     t = strip_comments(cut_tests(raw))
-    arms, why = start_on_arms(t)
+    arms, why, n_understood = start_on_arms(t)
+    # census over net/server/** (non-test code): the header layer is constructed nowhere but at the
+    # sites understood inside start_on, and request extensions are inserted in exactly two places
+    n_ctor, n_ins = 0, 0
+    for root, _, fns in os.walk(os.path.join(SRC, "net/server")):
+        for fn in sorted(fns):
+            if fn.endswith(".rs"):
+                ft = strip_comments(cut_tests(read(os.path.relpath(os.path.join(root, fn), SRC))))
+                n_ctor += len(re.findall(r"SetClientIdentityFromHeader\s*::\s*(?:<[^>]*>\s*::\s*)?new\b|SetClientIdentityFromHeader\s*\{\s*inner", ft))
+                n_ins += len(re.findall(r"extensions_mut\(\)", ft))
+    if n_ctor != n_understood:
+        why.append(f"SetClientIdentityFromHeader is constructed at {n_ctor} sites under net/server but only {n_understood} are understood (inside start_on)")
     for w in why:
         fail("routes.start_on", w)
     m0 = re.search(r"match \(self\.config\.disable_https, listener\)", raw) or re.search(r"pub async fn start_on", raw) or re.search(r"mod ", raw)
     record("routes.start_on", rel, raw, m0, arms)
+    setup, swhy = tls_setup(t)
+    for w in swhy:
+        fail("routes.tls_setup", w)
+    record("routes.tls_setup", rel, raw, re.search(r"async fn rustls_config", raw) or m0, setup)
     # the only places that may insert a ClientIdentity extension
     ins = re.findall(r"extensions_mut\(\)\s*\.insert\(", t)
-    record("routes.identity_inserts", rel, raw, re.search(r"extensions_mut\(\)", raw), len(ins))
-    if len(ins) != 2:
-        fail("routes.identity_inserts", f"expected exactly 2 places inserting request extensions in net/server/mod.rs (certificate, header), found {len(ins)}")
+    record("routes.identity_inserts", rel, raw, re.search(r"extensions_mut\(\)", raw), {"mod.rs": len(ins), "net/server/**": n_ins})
+    if len(ins) != 2 or n_ins != 2:
+        fail("routes.identity_inserts", f"expected exactly 2 places touching request extensions under net/server (certificate, header; both in mod.rs), found {len(ins)} in mod.rs, {n_ins} in total")
     # HelperAuthentication: extension present ? forward : 401
     qraw = read(H + "/query/mod.rs")
     qt = strip_comments(cut_tests(qraw))
@@ -613,6 +670,10 @@ def extract():
         f"  {{ disableHttps := {str(a['disable_https']).lower()}, listener := {str(a['listener']).lower()}, headerLayer := {str(a['header_layer']).lower()}, tlsAcceptor := {str(a['tls_acceptor']).lower()}, recognised := {str(a['recognised']).lower()} }}"
         for a in arms))
     L.append("]")
+    L.append("")
+    b = lambda x: str(bool(x)).lower()
+    L.append("/-- `rustls_config`: trust anchors are exactly the peers' certificates; `allow_unauthenticated`; the verifier is installed in the server config -/")
+    L.append(f"def tlsSetup : TlsSetup :=\n  {{ anchorsFromPeers := {b(setup['anchors_from_peers'])}, clientAuthOptional := {b(setup['client_auth_optional'])}, verifierInstalled := {b(setup['verifier_installed'])}, recognised := {b(setup['recognised'])} }}")
     L.append("")
     L.append("end IpaVerif.Generated.Routes")
     return {"Routes.lean": "\n".join(L) + "\n"}
